@@ -727,6 +727,18 @@ func propC15(c *Ctx) int {
 
 
 func propC16(c *Ctx) int {
+	c.RunJob(Job{Name: "the five accessors in a symbolic sequence (bytes)", Pkg: "core", Fn: "HRepeatBytes", Stubs: []string{"rune"}, PanicIsViolation: true, MaxPaths: 100000, Timeout: time.Hour,
+		MaxSteps: 50000000, MaxDepth: 1000, MustReach: []string{"repeatable"}})
+	// the repeated calls under one range-over-map site iterating in a symbolic order
+	for doc := int64(0); doc < 4; doc++ {
+		for site := int64(0); site < 40; site++ {
+			jr := c.RunJob(Job{Name: fmt.Sprintf("the five accessors repeated, doc#%d map-site=%d", doc, site), Pkg: "core", Fn: "HRepeatBytes", Params: map[string]int64{"site": site, "docp": doc},
+				Stubs: []string{"rune"}, PanicIsViolation: true, MaxPaths: 100000, Timeout: time.Hour, MaxSteps: 50000000, MaxDepth: 1000, Quiet: true})
+			if jr.Stats.Reached["no-such-site"] > 0 {
+				break
+			}
+		}
+	}
 	c.RunJob(Job{Name: "serialisation after earlier calls", Pkg: "core", Fn: "HRepeat", Stubs: []string{"rune"}, PanicIsViolation: true, MaxPaths: 100000, Timeout: time.Hour,
 		MaxSteps: 20000000, MaxDepth: 1000, MustReach: []string{"repeatable"}})
 	// the same on the model-rendered documents of C02 (regex type, enums, JSON-RPC, layouts): second serialisation == first
@@ -744,9 +756,9 @@ func propC16(c *Ctx) int {
 		}
 	}
 	return c.Finish("model_checking", []string{
+		"bytes (HRepeatBytes): ToJson, ToJsonIndent, ToOpenAPIJson, ToOpenAPIJsonIndent and Title of one built catalog called in a symbolic sequence of four calls and then twice each: every accessor returns the bytes of its first call — also when the repeated calls run with ONE range-over-map site iterating in a symbolic order (all sites in turn), so that a serialiser that walks a Go map cannot rely on the engine's insertion order; the REAL serialisers run in the engine, encoding/json being modelled over interpreter values (symgo/json.go: struct tags, omitempty, embedded structs, sorted map keys, Marshaler / TextMarshaler methods called through the interpreter, HTML-safe escaping, compaction) — a model validated by `vcheck SELFTEST`: byte-identical ToJson, ToJsonIndent and OpenAPI JSON for all 1108 corpus files, and by the native replay of every path of this job",
 		"emitter level: what ToJson / ToJsonIndent hand to encoding/json — for every entity its names, ids, annotations, descriptions, parameters, and for every schema and enum the content tree, rules, notes, used types/enums and the EXAMPLE, each obtained the way the MarshalJSON methods obtain it (harness/catalog/zz_verif_deep.go VSchemaEmit, overlaid into package catalog) — after a symbolic sequence of up to three earlier calls (serialise / Title) equals what the first serialisation of a fresh catalog of the same project hands over; 3 fixture projects (regex user type referred to by jsight types, regex bodies, allOf, enums, path variables, query, JSON-RPC) and model-rendered documents of C02 serialised twice",
-		"reduction: encoding/json is a function of the data it is given (trusted; reflection is not encoded), so equal data means equal bytes for ToJson and for ToJsonIndent",
-		"outside: ToOpenAPIJson / ToOpenAPIJsonIndent (catalog/ser/openapi and jsight-schema-core/openapi are reflection-driven), the bytes themselves, calls from several goroutines (C18)",
+		"outside: calls from several goroutines (C18); documents beyond the fixtures and the model-rendered ones",
 		"the regex example generator (github.com/lucasjones/reggen) runs natively inside the engine on the concrete pattern, one stateful generator per schema object as in the real run",
 		contractRune,
 	}, map[string]interface{}{})
@@ -786,6 +798,11 @@ func propC04(c *Ctx) int {
 			MaxSteps: 3000000, MaxDepth: 400, MustReach: []string{"accepted"}})
 		emitted += jr.Stats.Reached["accepted"]
 	}
+	{
+		jr := c.RunJob(Job{Name: "late-checked bodies and rules emitted", Pkg: "core", Fn: "HEmitCases", Stubs: []string{"rune"}, PanicIsViolation: true, MaxPaths: 100000, Timeout: time.Hour,
+			MaxSteps: 3000000, MaxDepth: 400, MustReach: []string{"accepted", "rejected"}})
+		emitted += jr.Stats.Reached["accepted"]
+	}
 	if emitted == 0 {
 		c.Inconclusive("vacuity: no accepted document was emitted")
 	}
@@ -798,9 +815,10 @@ func propC04(c *Ctx) int {
 	}
 	return c.Finish("model_checking", []string{
 		"emitter level: for every ACCEPTED document of the hole family (5 representative documents — one of them made of schema constructs: enum rule, regex type, min, allOf, or, forward type reference, arrays, Path, Query — with 2 symbolic bytes substituted at a cut; sampled cuts in the quick tier, every cut in the thorough tier) every step ToJson performs before it calls encoding/json succeeds (emitter-side compilation of each schema: content tree, allOf inheritance, used names; example generation; pseudo-schema notations) and every content node is typed consistently (containers: children, no scalar value; others: a scalar value, no children); the same on model-rendered documents of C02",
+		"late-checked bodies and rules (HEmitCases): regex bodies with 12 patterns (valid and invalid) in a response, a request, Body directives and a user type used as Path property; Path bodies whose rule disagrees with the example or names an undefined type / enum; an empty ENUM; types in empty / any notation; same-code responses — symbolic choices: whatever the verdict of the build, an accepted document serialises",
 		"reference matrix (HRefMatrix, see C01): for every ACCEPTED combination of a place that names a user type and a notation of that type the emitter steps succeed",
-		"reduction: encoding/json does not fail on the data types handed over (strings, bools, slices, structs, pointers; invalid UTF-8 is coerced, not refused) — trusted, reflection is not encoded; ToJson and ToJsonIndent are given the same data",
-		"outside: that the bytes are valid UTF-8 JSON of the JDoc Exchange shape (decided by encoding/json and the struct tags), key order, ToJson vs ToJsonIndent whitespace",
+		"bytes (vCheckJSON, on every accepted document of these families): ToJson and ToJsonIndent succeed, are valid UTF-8 JSON (encoding/json.Valid on the produced bytes), agree up to whitespace (Compact(indent) == compact), start with tags, contain interactions and end with jsight 0.3 / jdocExchangeVersion 2.0.0; every interaction appears under its key with id and protocol, every tag with name and title and an interactionGroups array, every response with a body object, every user type / enum / server under its name; encoding/json is modelled over interpreter values (symgo/json.go; byte-identical with the native serialisers on all 1108 corpus files, `vcheck SELFTEST`)",
+		"outside: a full JSON-schema validation of the JDoc Exchange shape (only the listed keys and per-entity fields are asserted)",
 		contractLoc, contractRune,
 	}, map[string]interface{}{"accepted_documents_emitted": emitted})
 }
@@ -838,13 +856,19 @@ func propC17(c *Ctx) int {
 			exported += jr.Stats.Reached["exported"]
 		}
 	}
+	for _, fn := range []string{"HRefMatrix", "HEmitCases"} {
+		jr := c.RunJob(Job{Name: fn + " exported", Pkg: "core", Fn: fn, Params: map[string]int64{"export": 1, "emitOnly": 1}, Stubs: []string{"rune"}, PanicIsViolation: true, MaxPaths: 100000, Timeout: time.Hour,
+			MaxSteps: 3000000, MaxDepth: 400, MustReach: []string{"accepted"}})
+		exported += jr.Stats.Reached["accepted"]
+	}
 	if exported == 0 {
 		c.Inconclusive("vacuity: no accepted document was exported")
 	}
 	return c.Finish("model_checking", []string{
 		"structure level: for every ACCEPTED document of the hole family (an HTTP kitchen sink — URL grouping, path variables with and without a Path directive, query, request headers/body, several responses incl. regex and headers+body, tags, OperationId, types with enum/min/allOf/or rules, a regex type — and a JSON-RPC + HTTP document; 2 symbolic bytes substituted at a cut; sampled cuts in the quick tier, every cut in the thorough tier) openapi.NewOpenAPI — everything ToOpenAPIJson does before it calls encoding/json, incl. jsight-schema-core/openapi from its SSA — does not panic and returns an error value or a structure with openapi 3.0.3, info and paths in which every HTTP interaction is paths[path][method], its responses are there under keys that are status codes or 'default', every {parameter} of the path is a required path parameter (with a schema) of the path item, and every user type is a component",
-		"reduction: encoding/json does not fail on the structure handed over (trusted; reflection is not encoded)",
-		"outside: that every $ref resolves (the schema objects of jsight-schema-core/openapi are opaque behind an interface whose MarshalJSON is reflection-driven), the JSON bytes, request bodies / headers / tags of the operations",
+		"the reference matrix (18 places x 9 notations of a user type) and the late-checked bodies and rules (HEmitCases) of C01/C04: every accepted combination is exported too — an error value or a document with version, info and paths, never a panic",
+		"bytes: ToOpenAPIJson and ToOpenAPIJsonIndent of every exported document succeed, are valid JSON, agree up to whitespace, start with openapi 3.0.3 and info, and every \"$ref\": \"#/components/schemas/X\" in the bytes names a user type that is a key of components.schemas (encoding/json modelled over interpreter values, symgo/json.go; jsight-schema-core/openapi's own MarshalJSON methods run through the interpreter)",
+		"outside: request bodies / headers / tags of the operations beyond their presence, OpenAPI schema validity of the converted schemas",
 		contractLoc, contractRune,
 	}, map[string]interface{}{"accepted_documents_exported": exported})
 }
